@@ -139,6 +139,16 @@ def run_job(job):
                             # the prefix)
                             upto = min(upto, len(a), len(b), k)
                         bb = b[:len(a)] if len(b) >= len(a) else b
+                        if kind in TIE_PRONE and a.dtype.kind == 'f' and bb.dtype.kind == 'f' and len(bb) >= upto:
+                            # zero-variance windows: rounding noise divided by an exact zero is +inf, -inf or nan depending on
+                            # the last ulp of a sum taken over a longer array; positions that are non-finite in BOTH results are
+                            # not judged on these series (finite against non-finite still is)
+                            both = ~np.isfinite(a[:upto]) & ~np.isfinite(bb[:upto])
+                            if both.any() and (np.isinf(a[:upto][both]).any() or np.isinf(bb[:upto][both]).any()):
+                                cnt['nonfinite_pairs_on_tie_prone_series_not_judged'] = cnt.get('nonfinite_pairs_on_tie_prone_series_not_judged', 0) + 1
+                                a, bb = a.copy(), bb.copy()
+                                a[:upto][both] = np.nan
+                                bb[:upto][both] = np.nan
                         i = indlib.equal_values(a[:upto], bb[:upto], scale=indlib.scale_of(X, b))
                         if i is not None:
                             key = f'noncausal:{name}:{fld}'
